@@ -1345,8 +1345,10 @@ func (t *State) processUnconfirmTxs(block *pb.InternalBlock, batch kvdb.Batch, n
 			localVersion := xmodel.MakeVersion(txInputExt.RefTxid, txInputExt.RefOffset)
 			remoteVersion := keysVersionInBlock[string(bucketAndKey)]
 			if localVersion != remoteVersion && remoteVersion != "" {
-				txidInVer := xmodel.GetTxidFromVersion(remoteVersion)
-				if _, known := unconfirmTxMap[string(txidInVer)]; known {
+				// 读到的版本如果是另一笔仍留在未确认表里(不在本区块内)的交易写的, 冲突与否由那笔交易决定(它被回滚时子交易一并回滚);
+				// 否则区块已经改写了本交易读到的版本(包括只读不写的交易), 本交易读到的版本已经过期
+				txidInVer := xmodel.GetTxidFromVersion(localVersion)
+				if _, known := unconfirmTxMap[string(txidInVer)]; known && !txidsInBlock[string(txidInVer)] {
 					continue
 				}
 				t.log.Warn("inputs version conflict", "key", bucketAndKey, "localVersion", localVersion, "remoteVersion", remoteVersion)
